@@ -100,7 +100,11 @@ func zzC13_watchdog() {
 				vAssert(zzSameBytes(t.written[last], t.written[n0]), "the same request is retransmitted")
 				vAssert(t.times[last]-t.times[last-1] == int64(cli.RetransmitInterval), "at RetransmitInterval")
 			}
-			switch vChoice("dwa", 3) {
+			switch vChoice("dwa", 4) {
+			case 3: // the peer answers twice (duplicate success DWA): still one answer
+				t.in <- zzDWA(dwr, diam.Success)
+				vQuiesce()
+				fallthrough
 			case 0:
 				t.in <- zzDWA(dwr, diam.Success)
 				vQuiesce()
